@@ -37,9 +37,48 @@ from qv.harness import obligation, Skip
 
 PROP = "C04"
 META = {
-    "bounds": {},
-    "outside": [],
-    "assumptions": [],
+    "bounds": {
+        "quick": {
+            "networks": "<= 5 tensors, rank <= 4, dims {1,2,3}: chain of 3, star of 4, triangle, ring of 4, hyper index on 3-5 tensors "
+                        "(also as an output), output label that is also a bond, multibond, size-1 inner and outer labels, bond 3",
+            "entries": "conj-pair complex symbols for LAPACK-free rewrites, real symbols where a QR / SVD / eigh contract stub is reached, "
+                       "strictly positive symbols (|x| >= 1/16) for the entries inspected by the structure finders; symbolic stored exponent",
+            "structured tensors": "exactly diagonal / anti-diagonal / single-column / COPY tensors (literal zeros, symbolic or unit non-zeros)",
+            "options": "one representative per option family (absorb, reduced, method, gauges, smudge, power, max_distance, min_distance, "
+                       "exclude, gauge_links, equalize_norms False/True/value, output_inds explicit/default, atol 1e-12 / 0, in place / plain, cache)",
+            "compositions": "13 ordered pairs of LAPACK-free passes, 7 sequences with a QR/SVD based step, full_simplify with 14 (network, seq) cells",
+            "truncation": "none (cutoff=0.0, max_bond None or >= rank)",
+        },
+        "thorough": {
+            "adds": "every listed (geometry, pair of tensors, option) cell; every ordered pair of {D,A,C,R,H,squeeze,equalize} on 7 structured "
+                    "networks with the first pass re-applied; 96 full_simplify cells; signed real symbols in the finders (sign forks); complex "
+                    "entries through QR / SVD stubs; three-step sequences; two sweeps of gauge_all_canonize",
+        },
+    },
+    "outside": [
+        "floating point rounding; truncating calls (cutoff > 0 or max_bond below the rank): approximate by design",
+        "effectiveness of the passes (whether a simplification is found), optimality of a compression",
+        "entries whose magnitude is within a few orders of atol (zero / non-zero classification of the finders is exact here: |x| >= 1/16 or x == 0)",
+        "structure finders on complex symbolic entries and on the outputs of LAPACK stubs (abs() of an undetermined quantity); "
+        "complex data runs in the numeric cross-run",
+        "balance_bonds / tensor_balance_bond on generic tensors ((x/y)**(1/4) of sums of squares) and gauge_all_random (library RNG): "
+        "numeric-only supplements; tensor_balance_bond is symbolic where the column norms are monomials",
+        "split_simplify firing on rank-deficient tensors (rank detection by a real SVD): numeric-only supplement; with the full-rank "
+        "contract stub split_simplify provably never fires and leaves the network alone",
+        "rank_simplify / full_simplify when a scalar has to be spread over several tensors (multiply takes x**(1/n) of a polynomial): skipped with a note",
+        "gauge_all_belief_propagation, compress_all(mode='virtual-tree') beyond two tensors, contract_compressed, loops longer than 4, "
+        "hyperinds_resolve(sorter='centrality') (imports cotengra.cotengra, absent from the installed cotengra: ImportError)",
+        "more than two sweeps of the iterative gaugings; convergence of gauge_all_simple",
+        "non-mutation of the receiver by the plain spellings (property C03)",
+    ],
+    "assumptions": [
+        "LAPACK qr / svd / eigh return factors meeting their contracts (stubs): QR with positive diagonal of R, strictly positive "
+        "singular values (generic full-rank input)",
+        "every norm / determinant divided by is non-zero (recorded per run)",
+        "a (network, gauges) pair denotes the network with each listed gauge vector inserted on its label",
+        "the non-zero entries handed to the structure finders are bounded away from atol (|x| >= 1/16); with atol=0.0 no assumption is needed",
+    ],
+    "timeout_s": {"quick": 300, "thorough": 600},
 }
 
 _Q = ("quick", "thorough")
@@ -73,6 +112,8 @@ GEOMS = {
     "pairwide": ([("A", "ax"), ("B", "xb")], dict(a=2, b=2, x=3), "ab"),
 }
 GEOMS["multi"] = ([("A", "axy"), ("B", "xybz"), ("C", "zc")], dict(a=2, b=2, c=2, x=2, y=2, z=2), "abc")
+# triangle whose third tensor has no dangling label (loop_simplify replaces the loop by two tensors)
+GEOMS["tri2"] = ([("A", "axz"), ("B", "xby"), ("C", "yz")], dict(a=2, b=2, x=2, y=2, z=2), "ab")
 
 
 def build(mk, geom, kind="cplx", expo="sym", kinds=None):
@@ -138,21 +179,27 @@ def check_flags(mk, tag, tn2):
 
 
 def eq_clear(mk, label, lhs, rhs):
-    """equality goal, each entry multiplied by the monomial of invertible (non-zero) symbols that
-    clears its negative powers: an equivalent goal whose certificate is of lower degree (a norm
-    r = sqrt(p) enters as r**-2; the defining relation is r**2 = p)"""
+    """equality goal lhs == rhs on quantities of the form p / r**2 with r = sqrt(q) a norm taken by
+    the code under test (defining relation r**2 = q): both sides are multiplied by r**2 for the
+    NEWEST such r of each side (the last normalisation applied to that tensor) - an equivalent goal,
+    r != 0 - so that the goal is a direct multiple of the defining relations"""
     if not mk.sym:
         return mk.eq(label, lhs, rhs)
     A, B = [], []
     for x, y in zip(P.flat_polys(lhs), P.flat_polys(rhs)):
-        mins = {}
-        for m in (x - y).t:
-            for s_, e_ in m:
-                if s_ in P.TAB.invertible and e_ < 0:
-                    mins[s_] = min(mins.get(s_, 0), e_)
-        if mins:
-            mono = P.Poly({tuple(sorted((s_, -e_) for s_, e_ in mins.items())): 1})
-            x, y = x * mono, y * mono
+        mono = {}
+        for side in (x, y):
+            neg = {}
+            for m in side.t:
+                for s_, e_ in m:
+                    if e_ < 0 and P.TAB.kind[s_] == "def" and s_ in P.TAB.invertible:
+                        neg[s_] = min(neg.get(s_, 0), e_)
+            if neg:
+                top = max(neg)
+                mono[top] = max(mono.get(top, 0), -neg[top])
+        if mono:
+            mm = P.Poly({tuple(sorted(mono.items())): 1})
+            x, y = x * mm, y * mm
         A.append(x)
         B.append(y)
     mk.eq(label, A, B)
@@ -197,8 +244,8 @@ def exponent_and_norms(mk, geom):
         mk.eq(f"{tag}: 10**(new exponent - old) * value == old norm (squared)",
               (10 ** (t2.exponent - e0) * v) ** 2, norm2(tn.tensor_map[tid]))
 
-    # distribute_exponent
-    for new in (0.0, 3.0):
+    # distribute_exponent (a target that is a multiple of the number of tensors keeps 10**(./n) exact)
+    for new in (0.0, float(tn.num_tensors)):
         t2 = tn.copy()
         t2.distribute_exponent(new)
         tag = f"distribute_exponent({new})"
@@ -707,9 +754,11 @@ _STRUCT_QUICK = {("D", "diagmid"), ("D", "copy3"), ("D", "diagout"), ("D", "diag
                  ("D", "circuit"), ("A", "circuit"), ("C", "circuit")}
 
 
-@obligation(PROP, params=[{"p": p, "geom": g, "_tiers": _Q if (p, g) in _STRUCT_QUICK else _T}
-                          for p, gs in _STRUCT_PASSES.items() for g in gs], max_paths=300, wall_s=200, timeout_s=300)
-def structure_pass(mk, p, geom):
+@obligation(PROP, params=[{"p": p, "geom": g, "kind": "pos", "_tiers": _Q if (p, g) in _STRUCT_QUICK else _T}
+                          for p, gs in _STRUCT_PASSES.items() for g in gs]
+            + [{"p": p, "geom": g, "kind": "real", "_tiers": _T} for p, g in (("D", "diagmid"), ("A", "antimid"), ("D", "diagloop"), ("C", "colout"))],
+            max_paths=600, wall_s=200, timeout_s=300)
+def structure_pass(mk, p, geom, kind):
     """diagonal_reduce / antidiag_gauge / column_reduce on networks holding exactly structured
     tensors (the finders of array_ops fire) and on generic ones (they must not): value over the
     same outputs, explicit and default output_inds, both tolerances, in place, applied twice"""
@@ -717,7 +766,8 @@ def structure_pass(mk, p, geom):
                array_ops.find_diag_axes, array_ops.find_antidiag_axes, array_ops.find_columns,
                array_ops._numba_find_diag_axes, array_ops._numba_find_antidiag_axes, array_ops._numba_find_columns,
                tc.Tensor.collapse_repeated, tc.TensorNetwork.flip, tc.TensorNetwork.isel, tc.TensorNetwork.reindex)
-    tn, sizes, out = sbuild(mk, geom)
+    # kind='real': signed symbols - the finders' abs(x) > atol forks on the sign of every inspected entry
+    tn, sizes, out = sbuild(mk, geom, kind=kind)
     want = dense(tn, out)
     name = {"D": "diagonal_reduce", "A": "antidiag_gauge", "C": "column_reduce"}[p]
     before = shape_summary(tn)
@@ -797,7 +847,7 @@ _FS_QUICK = {("circuit", "ADCR"), ("copy3", "ADCR"), ("antimid", "ADCR"), ("anti
 
 
 @obligation(PROP, params=[{"geom": g, "seq": s, "_tiers": _Q if (g, s) in _FS_QUICK else _T} for g, s in _FS_CASES],
-            rounds=2, max_paths=300, wall_s=250, timeout_s=330)
+            rounds=2, max_paths=300, wall_s=100, timeout_s=150, max_rows=30000)
 def full_simplify(mk, geom, seq):
     """full_simplify with sequences of the LAPACK-free passes (A, D, C, R), explicit / default
     outputs, equalize_norms False / True / value, in place: value, outputs, norms"""
@@ -840,7 +890,7 @@ _PAIR_GEOMS = ["circuit", "copy3", "antimid", "colvec", "diagout", "ghyperout", 
                                                           ("colvec", "CR"), ("diagout", "DR"), ("diagout", "DH"), ("ghyperout", "HR"),
                                                           ("antiout2", "AD"), ("copy3", "DE"), ("diagout", "ED"), ("colvec", "RC")} else _T}
                           for g in _PAIR_GEOMS for a in _PAIR_LETTERS for b in _PAIR_LETTERS if a != b],
-            rounds=2, max_paths=300, wall_s=250, timeout_s=330)
+            rounds=2, max_paths=300, wall_s=100, timeout_s=150, max_rows=30000)
 def pass_pairs(mk, geom, p1, p2):
     """every ordered pair of rewrites (diagonal_reduce, antidiag_gauge, column_reduce, rank_simplify,
     hyperinds_resolve, squeeze, equalize_norms(1.0)): the result of the first is fed to the second"""
@@ -862,3 +912,810 @@ def pass_pairs(mk, geom, p1, p2):
     except P.Unsupported as e:
         mk.note(f"skipped: {p1} ; {p2}: {e}")
     mk.note(f"{geom}: {p1};{p2} {shape_summary(tn)} -> {shape_summary(t2) if 't2' in dir() else None}")
+
+
+# ====================================================================== H. canonize / compress one bond (LAPACK contract stubs)
+
+def bond_sizes(tn, out):
+    return {ix: tn.ind_size(ix) for ix in tn.ind_map if ix not in out}
+
+
+def check_bonds_not_larger(mk, tag, tn_before, tn_after, ta_tag, tb_tag, out):
+    """the bond between the two tensors is a single label no larger than min(product of the old shared
+    labels, left dimension, right dimension)"""
+    a0, b0 = tn_before[ta_tag], tn_before[tb_tag]
+    a1, b1 = tn_after[ta_tag], tn_after[tb_tag]
+    shared0 = [ix for ix in a0.inds if ix in b0.inds]
+    shared1 = [ix for ix in a1.inds if ix in b1.inds]
+    mk.same(f"{tag}: exactly one label joins the two tensors", len(shared1), 1)
+    if len(shared1) != 1:
+        return
+    d0 = int(np.prod([a0.ind_size(ix) for ix in shared0]))
+    mk.same(f"{tag}: bond not larger than before", a1.ind_size(shared1[0]) <= d0, True)
+
+
+_CB_OPTS = {
+    "right": dict(absorb="right"),
+    "left": dict(absorb="left"),
+    "both": dict(absorb="both"),
+    "right_svd": dict(absorb="right", method="svd"),
+    "right_named": dict(absorb="right", bond_ind="x"),
+    "swap": dict(absorb="right", swap_inds="b"),          # move the dangling label b of B over to A (pair 'BA' only)
+    "create": dict(absorb="right", create_bond=True),     # no shared label: a size-1 bond is created (pair 'AC' only)
+    "create_both": dict(absorb="both", create_bond=True, bond_ind="NEWB"),
+}
+
+
+@obligation(PROP, params=[{"geom": g, "pair": pr, "opt": o,
+                           "_tiers": _Q if (g, pr, o) in {("chain3", "AB", "right"), ("chain3", "BC", "left"), ("tri", "AB", "right"),
+                                                          ("multi", "AB", "right"), ("chain3", "AB", "both"), ("dim1", "AB", "left"),
+                                                          ("hyper3", "CD", "right"), ("chain3d3", "BA", "right"), ("chain3", "BA", "swap"), ("chain3", "AC", "create")} else _T}
+                          for g in ("chain3", "tri", "multi", "dim1", "chain3d3", "hyper3", "ring4")
+                          for pr in (("AB", "BA", "BC") + (("AC",) if g in ("chain3", "ring4") else ()) if g != "hyper3" else ("CD", "DC"))
+                          for o in _CB_OPTS if not (o == "right_named" and (g not in ("chain3", "multi") or pr == "BC"))
+                          and not (o == "both" and g in ("chain3d3", "multi", "ring4"))
+                          and (o == "swap") == (pr == "BA" and g in ("chain3", "tri", "chain3d3") and o == "swap")
+                          and (o.startswith("create")) == (pr == "AC")],
+            rounds=2, rounds2=3, wall_s=200, timeout_s=280, max_rows=60000)
+def canonize_bond(mk, geom, pair, opt):
+    """tensor_canonize_bond / TensorNetwork.canonize_between on one bond: value, labels, the tensor
+    flagged through left_inds is an isometry, bond not larger"""
+    mk.encodes(tc.tensor_canonize_bond, tc.TensorNetwork.canonize_between, tc.TensorNetwork._canonize_between_tids,
+               tc.tensor_make_single_bond, tc.tensor_split, tc.tensor_compress_bond)
+    tn, sizes, out = build(mk, geom, kind="real")
+    want = dense(tn, out)
+    kw = dict(_CB_OPTS[opt])
+    t2 = tn.copy()
+    t2.canonize_between(pair[0], pair[1], **kw)
+    tag = f"canonize_between({pair[0]}, {pair[1]}, {kw})"
+    check_value(mk, tag, t2, out, want, sizes)
+    check_flags(mk, tag, t2)
+    check_bonds_not_larger(mk, tag, tn, t2, pair[0], pair[1], out)
+    ab = kw["absorb"]
+    iso_tag = {"right": pair[0], "left": pair[1], "both": None}[ab]
+    if "swap_inds" in kw:
+        mk.same(f"{tag}: the swapped label moved to the other tensor",
+                (kw["swap_inds"] in t2[pair[0]].inds, kw["swap_inds"] in t2[pair[1]].inds), (False, True))
+    if opt.startswith("create"):
+        new = [ix for ix in t2[pair[0]].inds if ix in t2[pair[1]].inds]
+        mk.same(f"{tag}: a new size-1 bond joins the two tensors", [t2.ind_size(ix) for ix in new], [1])
+        if "bond_ind" in kw:
+            mk.same(f"{tag}: the new bond has the requested name", new, [kw["bond_ind"]])
+    for t in t2:
+        g = tag_of(t)
+        if g == iso_tag:
+            bnd = [ix for ix in t.inds if ix in t2[pair[1] if g == pair[0] else pair[0]].inds]
+            mk.same(f"{tag}: tensor {g} is flagged isometric over every label but the bond",
+                    t.left_inds is not None and set(t.left_inds) == set(t.inds) - set(bnd), True)
+        elif g not in pair:
+            mk.same(f"{tag}: tensor {g} untouched", t.data is tn[g].data, True)
+
+
+_CMP_OPTS = {}
+for _red in (True, False, "left", "right"):
+    for _ab in ("both", "left", "right", None):
+        _CMP_OPTS[f"red={_red},absorb={_ab}"] = dict(reduced=_red, absorb=_ab)
+_CMP_OPTS["default"] = dict()
+_CMP_OPTS["max_bond=8"] = dict(max_bond=8)
+_CMP_OPTS["eig"] = dict(method="svd:eig")
+
+
+def _cmp_params():
+    out = []
+    for g in ("pair", "pairwide", "chain3", "tri", "multi", "dim1"):
+        for pr in (("AB",) if g.startswith("pair") else ("AB", "BC")):
+            for o in _CMP_OPTS:
+                quick = (g, pr, o) in {("pair", "AB", "red=True,absorb=both"), ("pairwide", "AB", "red=True,absorb=right"),
+                                       ("chain3", "AB", "red=False,absorb=left"), ("chain3", "BC", "red=left,absorb=right"),
+                                       ("pair", "AB", "red=True,absorb=None"), ("multi", "AB", "red=False,absorb=both"),
+                                       ("chain3", "AB", "red=right,absorb=left"), ("dim1", "AB", "default")}
+                if o in ("eig",) and g not in ("pair", "chain3"):
+                    continue
+                if o.startswith("red=True") and not (g.startswith("pair") or (g, pr) == ("chain3", "AB")):
+                    continue        # two QR + one SVD contract: certificates beyond the budget on the larger networks
+                out.append({"geom": g, "pair": pr, "opt": o, "_tiers": _Q if quick else _T})
+    return out
+
+
+@obligation(PROP, params=_cmp_params(), rounds=2, rounds2=3, wall_s=250, timeout_s=330, max_rows=60000)
+def compress_bond(mk, geom, pair, opt):
+    """tensor_compress_bond / compress_between with NO truncation (cutoff=0.0, max_bond None or
+    >= the rank): value (with the returned singular values on the bond when absorb=None), labels,
+    isometry flags, bond == min-rank (never larger than before)"""
+    mk.encodes(tc.tensor_compress_bond, tc.TensorNetwork.compress_between, tc.TensorNetwork._compress_between_tids,
+               tc.tensor_split, tc.tensor_make_single_bond)
+    tn, sizes, out = build(mk, geom, kind="real")
+    want = dense(tn, out)
+    kw = dict(_CMP_OPTS[opt])
+    if kw.get("method") == "svd:eig":
+        stubs.OPTIONS["eigh_spectrum"] = "pos"
+    try:
+        t2 = tn.copy()
+        ta, tb = t2[pair[0]], t2[pair[1]]
+        info = {}
+        if opt in ("default", "max_bond=8", "eig"):
+            t2.compress_between(pair[0], pair[1], cutoff=0.0, **kw)
+            tag = f"compress_between({pair[0]}, {pair[1]}, cutoff=0.0, {kw})"
+        else:
+            tc.tensor_compress_bond(ta, tb, cutoff=0.0, info=info, **kw)
+            tag = f"tensor_compress_bond({pair[0]}, {pair[1]}, cutoff=0.0, {kw})"
+    finally:
+        stubs.OPTIONS["eigh_spectrum"] = "real"
+    shared = [ix for ix in ta.inds if ix in tb.inds]
+    mk.same(f"{tag}: exactly one label joins the two tensors", len(shared), 1)
+    if kw.get("absorb", "both") is None:
+        s = info.get("singular_values")
+        mk.same(f"{tag}: singular values returned through info", s is not None and len(s) == ta.ind_size(shared[0]), True)
+        mk.eq(f"{tag}: network with the returned singular values on the bond == original", dense_gauged(t2, out, {shared[0]: s}), want)
+        mk.same(f"{tag}: outer labels", all(o in t2.ind_map and t2.ind_size(o) == sizes[o] for o in out), True)
+    else:
+        check_value(mk, tag, t2, out, want, sizes)
+    check_flags(mk, tag, t2)
+    # no truncation: the new bond is min(old bond, left dimension, right dimension)
+    a0, b0 = tn[pair[0]], tn[pair[1]]
+    sh0 = [ix for ix in a0.inds if ix in b0.inds]
+    d0 = int(np.prod([sizes[i] for i in sh0]))
+    dl = int(np.prod([sizes[i] for i in a0.inds if i not in sh0]))
+    dr = int(np.prod([sizes[i] for i in b0.inds if i not in sh0]))
+    if len(shared) == 1:
+        d1 = ta.ind_size(shared[0])
+        mk.same(f"{tag}: bond not larger than before", d1 <= d0, True)
+        if kw.get("reduced", True) in (True, False):
+            mk.same(f"{tag}: bond == min(old bond, left dim, right dim)", d1, min(d0, dl, dr))
+    ab = kw.get("absorb", "both")
+    if ab in ("left", "right") and kw.get("reduced", True) in (True, False):
+        g = pair[0] if ab == "right" else pair[1]
+        t = t2[g]
+        mk.same(f"{tag}: tensor {g} flagged isometric over every label but the bond",
+                t.left_inds is not None and set(t.left_inds) == set(t.inds) - set(shared), True)
+
+
+@obligation(PROP, params=[{"geom": g, "pair": pr, "fn": f, "smudge": sm,
+                           "_tiers": _Q if (g, pr, f, sm) in {("pair", "AB", "compress", 0.0), ("chain3", "AB", "canonize", 0.0), ("multi", "AB", "canonize", 0.0)} else _T,
+                           "_mandatory": not (f == "compress" and g in ("multi", "tri"))}
+                          for g in ("chain3", "pair", "multi", "tri") for pr in (("AB",) if g != "chain3" else ("AB", "BC"))
+                          for f in ("compress", "canonize") for sm in (0.0, 1e-6)],
+            rounds=2, rounds2=3, wall_s=250, timeout_s=330, max_rows=60000)
+def bond_with_gauges(mk, geom, pair, fn, smudge):
+    """tensor_compress_bond / tensor_canonize_bond with a simple-update gauge dictionary: the
+    (network, gauges) pair denotes the same tensor before and after (the gauge of the bond is
+    replaced / consumed as documented)"""
+    mk.encodes(tc.tensor_compress_bond, tc.tensor_canonize_bond, tc.TensorNetwork.gauge_simple_insert, tc.TensorNetwork.gauge_simple_remove,
+               tc.tensor_multifuse)
+    tn, sizes, out = build(mk, geom, kind="real")
+    inner = [ix for ix in tn.ind_map if ix not in out]
+    gauges = _gauges_for(mk, tn, inner)
+    want = dense_gauged(tn, out, gauges)
+    t2 = tn.copy()
+    ta, tb = t2[pair[0]], t2[pair[1]]
+    g2 = dict(gauges)
+    try:
+        if fn == "compress":
+            tc.tensor_compress_bond(ta, tb, cutoff=0.0, gauges=g2, gauge_smudge=smudge)
+        else:
+            tc.tensor_canonize_bond(ta, tb, gauges=g2, gauge_smudge=smudge)
+    except P.Unsupported as e:
+        raise Skip(f"{fn} with gauges, smudge={smudge}: {e}")
+    tag = f"tensor_{fn}_bond({pair}, gauges, gauge_smudge={smudge})"
+    mk.same(f"{tag}: gauge keys are labels of the network", set(g2) <= set(t2.ind_map), True)
+    mk.same(f"{tag}: gauge sizes", all(len(v) == t2.ind_size(k) for k, v in g2.items() if k in t2.ind_map), True)
+    mk.eq(f"{tag}: (network, gauges) denotes the same tensor", dense_gauged(t2, out, {k: v for k, v in g2.items() if k in t2.ind_map}), want)
+    mk.same(f"{tag}: outer labels", all(o in t2.ind_map and t2.ind_size(o) == sizes[o] for o in out), True)
+    shared = [ix for ix in ta.inds if ix in tb.inds]
+    if fn == "compress" and len(shared) == 1 and shared[0] in g2:
+        s = g2[shared[0]]
+        tot = 0
+        for v in s:
+            tot = tot + v * v
+        mk.eq(f"{tag}: the new bond gauge has unit 2-norm", tot, 1)
+
+
+# ====================================================================== I. regions: canonize_around / gauge_all_* / gauge_local / compress_all
+
+TREES = ("chain3", "star4", "chain3d3", "dim1", "multi", "hyper3")
+
+
+def _tree_dist(tn, region_tags):
+    """graph distance of every tensor (by tag) from the region, ordinary (2-tensor) bonds only"""
+    tags = [tag_of(t) for t in tn]
+    adj = {g: set() for g in tags}
+    for ix, tids in tn.ind_map.items():
+        ts = [tag_of(tn.tensor_map[t]) for t in tids]
+        for a in ts:
+            for b in ts:
+                if a != b:
+                    adj[a].add(b)
+    dist = {g: 0 for g in region_tags}
+    frontier = list(region_tags)
+    while frontier:
+        nxt = []
+        for a in frontier:
+            for b in adj[a]:
+                if b not in dist:
+                    dist[b] = dist[a] + 1
+                    nxt.append(b)
+        frontier = nxt
+    return dist, adj
+
+
+_CA_OPTS = {
+    "default": dict(),
+    "d1": dict(max_distance=1),
+    "d0": dict(max_distance=0),
+    "min1": dict(min_distance=1),
+    "left": dict(absorb="left"),
+    "both": dict(absorb="both"),
+    "links": dict(gauge_links=True),
+    "links_right": dict(gauge_links=True, link_absorb="right"),
+    "eqn": dict(equalize_norms=True),
+    "eqn2": dict(equalize_norms=2.0),
+    "exclude": dict(exclude_tag="C"),
+    "svd": dict(method="svd"),
+}
+
+
+def _ca_params():
+    out = []
+    for g in ("chain3", "star4", "tri", "ring4", "multi", "dim1", "chain3d3"):
+        tags = {"chain3": ("A", "B"), "star4": ("A", "B"), "tri": ("A",), "ring4": ("A",), "multi": ("C",), "dim1": ("A",),
+                "hyper3": ("D",), "chain3d3": ("C",)}[g]
+        for tg in tags:
+            for o in _CA_OPTS:
+                if o.startswith("links") and g not in ("tri", "ring4"):
+                    continue
+                quick = (g, tg, o) in {("chain3", "A", "default"), ("chain3", "B", "default"), ("star4", "B", "default"), ("tri", "A", "default"),
+                                       ("tri", "A", "links"), ("chain3", "A", "eqn2"), ("multi", "C", "default"), ("star4", "A", "d1"),
+                                       ("chain3", "A", "left"), ("chain3", "A", "exclude")}
+                out.append({"geom": g, "tag": tg, "opt": o, "_tiers": _Q if quick else _T})
+    return out
+
+
+@obligation(PROP, params=_ca_params(), rounds=2, rounds2=3, wall_s=250, timeout_s=330, max_rows=60000)
+def canonize_around(mk, geom, tag, opt):
+    """canonize_around(tags, ...): value, labels, every flagged tensor isometric; on a tree with
+    absorb='right' every tensor within max_distance (and beyond min_distance) of the region is an
+    isometry towards the region (all labels but the bond that leads to it)"""
+    mk.encodes(tc.TensorNetwork.canonize_around, tc.TensorNetwork._canonize_around_tids, tnw.get_tree_span,
+               tc.tensor_canonize_bond, tc.TensorNetwork.strip_exponent)
+    tn, sizes, out = build(mk, geom, kind="real")
+    want = dense(tn, out)
+    kw = dict(_CA_OPTS[opt])
+    ex = kw.pop("exclude_tag", None)
+    if ex is not None:
+        kw["exclude"] = list(tn._get_tids_from_tags(ex))
+    t2 = tn.canonize_around(tag, **kw)
+    lab = f"canonize_around({tag}, {_CA_OPTS[opt]})"
+    check_value(mk, lab, t2, out, want, sizes)
+    check_flags(mk, lab, t2)
+    mk.same(f"{lab}: receiver not modified (inplace=False)", all(t.left_inds is None for t in tn), True)
+    if geom in TREES and kw.get("absorb", "right") == "right" and not kw.get("equalize_norms"):
+        dist, adj = _tree_dist(tn, [tag])
+        lo, hi = kw.get("min_distance", 0), kw.get("max_distance", None)
+        for t in t2:
+            g = tag_of(t)
+            d = dist[g]
+            if d == 0 or d <= lo or (hi is not None and d > hi) or g == ex or (ex and geom == "chain3" and tag == "A" and g == "C"):
+                continue
+            parent = [b for b in adj[g] if dist[b] == d - 1]
+            bnd = [ix for ix in t.inds if any(ix in t2[b].inds for b in parent)]
+            over = tuple(ix for ix in t.inds if ix not in bnd)
+            mk.same(f"{lab}: tensor {g} (distance {d}) flagged as isometry towards the region",
+                    t.left_inds is not None and set(t.left_inds) == set(over), True)
+            iso_goal(mk, f"{lab}: tensor {g} (distance {d}) is an isometry towards the region", t, over)
+    if kw.get("equalize_norms") not in (None, False, True):
+        v = kw["equalize_norms"]
+        for t in t2:
+            if t.data is not tn[tag_of(t)].data:
+                eq_clear(mk, f"{lab}: touched tensor {tag_of(t)} has squared norm value**2", norm2(t), v * v)
+
+
+@obligation(PROP, params=[{"geom": "hyper3", "tag": "D"}, {"geom": "hyper3", "tag": "A", "_tiers": _T}],
+            rounds=2, rounds2=3, wall_s=250, timeout_s=330, max_rows=60000)
+def canonize_around_hyper(mk, geom, tag):
+    """canonize_around on a network with a hyper index (a label on three tensors): the spanning tree
+    runs through the hyper index (its holders are neighbours), a pairwise QR gauge on it is not a
+    gauge of the network - the value must still be the same (or the call rejected)"""
+    mk.encodes(tc.TensorNetwork.canonize_around, tc.TensorNetwork._canonize_around_tids, tnw.get_tree_span, tc.tensor_canonize_bond)
+    tn, sizes, out = build(mk, geom, kind="real")
+    want = dense(tn, out)
+    try:
+        t2 = tn.canonize_around(tag)
+    except (ValueError, NotImplementedError) as e:
+        mk.note(f"rejected: {type(e).__name__}: {e}"[:120])
+        mk.same("rejected cleanly", True, True)
+        return
+    check_value(mk, f"canonize_around({tag}) on a hyper-index network", t2, out, want, sizes)
+    check_flags(mk, f"canonize_around({tag}) on a hyper-index network", t2)
+
+
+_GA_OPTS = {
+    "canonize": dict(method="canonize", max_iterations=1),
+    "canonize_right": dict(method="canonize", max_iterations=1, absorb="right"),
+    "canonize_eqn": dict(method="canonize", max_iterations=1, equalize_norms=True),
+    "canonize_eqn1": dict(method="canonize", max_iterations=1, equalize_norms=1.0),
+    "canonize2": dict(method="canonize", max_iterations=2),
+    "simple": dict(method="simple", max_iterations=1, smudge=0.0),
+    "simple_smudge": dict(method="simple", max_iterations=1),
+    "simple_eqn": dict(method="simple", max_iterations=1, smudge=0.0, equalize_norms=True),
+    "simple_power": dict(method="simple", max_iterations=1, smudge=0.0, power=0.5),
+    "simple_nofuse": dict(method="simple", max_iterations=1, smudge=0.0, fuse_multibonds=False),
+}
+
+
+@obligation(PROP, params=[{"geom": g, "opt": o, "_tiers": _Q if (g, o) in {("pair", "canonize"), ("chain3", "canonize_right"), ("pair", "simple"),
+                                                                          ("pair", "canonize_eqn1"), ("pair", "simple_eqn")} else _T,
+                           "_mandatory": g in ("pair", "chain3") or o.startswith("canonize")}
+                          for g in ("pair", "chain3", "tri", "multi", "hyper3") for o in _GA_OPTS
+                          if not (o == "simple_nofuse" and g != "multi")],
+            rounds=2, rounds2=3, wall_s=280, timeout_s=360, max_rows=60000)
+def gauge_all(mk, geom, opt):
+    """gauge_all(method=canonize / simple) with one (two) sweeps: value, labels, isometry flags"""
+    mk.encodes(tc.TensorNetwork.gauge_all, tc.TensorNetwork.gauge_all_canonize, tc.TensorNetwork.gauge_all_simple,
+               tc.tensor_gauge_simple_bond, tc.tensor_compress_bond, tc.tensor_canonize_bond)
+    tn, sizes, out = build(mk, geom, kind="real")
+    want = dense(tn, out)
+    kw = dict(_GA_OPTS[opt])
+    try:
+        t2 = tn.gauge_all(**kw)
+    except P.Unsupported as e:
+        raise Skip(f"gauge_all({kw}): {e}")
+    lab = f"gauge_all({kw})"
+    check_value(mk, lab, t2, out, want, sizes)
+    check_flags(mk, lab, t2)
+
+
+@obligation(PROP, params=[{"geom": g, "start": s, "_tiers": _Q if (g, s) == ("pair", "none") else _T, "_mandatory": g == "pair"}
+                          for g in ("pair", "chain3", "multi") for s in ("none", "given")],
+            rounds=2, rounds2=3, wall_s=280, timeout_s=360, max_rows=60000)
+def gauge_all_simple_tracked(mk, geom, start):
+    """gauge_all_simple(gauges=dict): the gauges are tracked externally - the (network, gauges)
+    pair denotes the same tensor; stored gauges have unit 2-norm"""
+    mk.encodes(tc.TensorNetwork.gauge_all_simple, tc.tensor_gauge_simple_bond)
+    tn, sizes, out = build(mk, geom, kind="real")
+    inner = [ix for ix in tn.ind_map if ix not in out]
+    gauges = {} if start == "none" else _gauges_for(mk, tn, inner[:1])
+    want = dense_gauged(tn, out, gauges)
+    g2 = dict(gauges)
+    info = {}
+    t2 = tn.gauge_all_simple(max_iterations=1, smudge=0.0, gauges=g2, info=info)
+    lab = f"gauge_all_simple(max_iterations=1, smudge=0.0, gauges={start})"
+    mk.same(f"{lab}: gauge keys are labels of the network", set(g2) <= set(t2.ind_map), True)
+    mk.eq(f"{lab}: (network, gauges) denotes the same tensor", dense_gauged(t2, out, {k: v for k, v in g2.items() if k in t2.ind_map}), want)
+    mk.same(f"{lab}: outer labels", all(o in t2.ind_map and t2.ind_size(o) == sizes[o] for o in out), True)
+    mk.same(f"{lab}: info", (info.get("iterations"), "exponent" in info), (1, False))
+    for k, s in g2.items():
+        tot = 0
+        for v in s:
+            tot = tot + v * v
+        eq_clear(mk, f"{lab}: gauge {k} has unit 2-norm", tot, 1)
+
+
+@obligation(PROP, params=[{"geom": g, "opt": o, "_tiers": _Q if (g, o) in {("chain3", "canonize")} else _T}
+                          for g in ("chain3", "tri") for o in ("canonize", "canonize_d0", "simple")],
+            rounds=2, rounds2=3, wall_s=280, timeout_s=360, max_rows=60000, mandatory=False)
+def gauge_local(mk, geom, opt):
+    """gauge_local(tags, max_distance, method): value, labels, flags; tensors outside the local
+    region are untouched"""
+    mk.encodes(tc.TensorNetwork.gauge_local, tc.TensorNetwork._gauge_local_tids, tc.TensorNetwork._select_local_tids)
+    tn, sizes, out = build(mk, geom, kind="real")
+    want = dense(tn, out)
+    kw = {"canonize": dict(method="canonize", max_distance=1), "canonize_d0": dict(method="canonize", max_distance=0, max_iterations=1),
+          "simple": dict(method="simple", max_distance=1, smudge=0.0)}[opt]
+    try:
+        t2 = tn.gauge_local("A", **kw)
+    except P.Unsupported as e:
+        raise Skip(f"gauge_local({kw}): {e}")
+    lab = f"gauge_local('A', {kw})"
+    check_value(mk, lab, t2, out, want, sizes)
+    check_flags(mk, lab, t2)
+    if geom == "chain3":
+        mk.same(f"{lab}: tensor C (distance 2) untouched", t2["C"].data is tn["C"].data, True)
+    if opt == "canonize_d0":
+        mk.same(f"{lab}: nothing to gauge in a one-tensor region", all(t2[g].data is tn[g].data for g in "ABC"), True)
+
+
+_CALL = {
+    "all_basic": ("compress_all", dict(cutoff=0.0, canonize=False)),
+    "all_default": ("compress_all", dict(cutoff=0.0)),
+    "all_basic_d1": ("compress_all", dict(cutoff=0.0, mode="basic", tree_gauge_distance=1)),
+    "all_maxbond": ("compress_all", dict(cutoff=0.0, max_bond=8, canonize=False)),
+    "tree": ("compress_all_tree", dict(cutoff=0.0)),
+    "1d": ("compress_all_1d", dict(cutoff=0.0)),
+    "1d_nocanon": ("compress_all_1d", dict(cutoff=0.0, canonize=False)),
+    "simple": ("compress_all_simple", dict(cutoff=0.0, max_iterations=1, smudge=0.0)),
+    "between_canon": ("compress_between", dict(cutoff=0.0, canonize_distance=1)),
+    "between_eqn": ("compress_between", dict(cutoff=0.0, equalize_norms=1.0)),
+    "between_maxbond": ("compress_between", dict(cutoff=0.0, max_bond=2)),
+    "between_maxbond_left": ("compress_between", dict(cutoff=0.0, max_bond=4, absorb="left")),
+}
+
+
+@obligation(PROP, params=[{"geom": g, "opt": o,
+                           "_tiers": _Q if (g, o) in {("pair", "all_basic"), ("pairwide", "tree"), ("pairwide", "between_maxbond"),
+                                                      ("pairwide", "between_maxbond_left"), ("pair", "1d")} else _T,
+                           "_mandatory": g.startswith("pair") and o != "all_default"}
+                          for g in ("pair", "pairwide", "chain3", "chain3d3", "multi", "tri") for o in _CALL
+                          if not (o == "all_default" and g != "pair")
+                          and not (g in ("chain3d3", "multi", "tri") and o in ("all_basic", "all_basic_d1", "all_maxbond", "simple", "between_canon"))],
+            rounds=2, rounds2=3, wall_s=280, timeout_s=360, max_rows=60000)
+def compress_all(mk, geom, opt):
+    """compress_all / compress_all_tree / compress_all_1d / compress_all_simple / compress_between with
+    no truncation (cutoff=0.0, max_bond None or not below the rank): value, labels, flags, bonds
+    never larger than before"""
+    mk.encodes(tc.TensorNetwork.compress_all, tc.TensorNetwork.compress_all_tree, tc.TensorNetwork.compress_all_1d,
+               tc.TensorNetwork.compress_all_simple, tc.TensorNetwork.compress_between, tc.TensorNetwork._compress_between_tids,
+               tc.choose_local_compress_gauge_settings, tc.tensor_compress_bond)
+    tn, sizes, out = build(mk, geom, kind="real")
+    want = dense(tn, out)
+    meth, kw = _CALL[opt]
+    try:
+        if meth == "compress_between":
+            t2 = tn.copy()
+            t2.compress_between("A", "B", **kw)
+        else:
+            t2 = getattr(tn, meth)(**kw)
+    except P.Unsupported as e:
+        raise Skip(f"{meth}({kw}): {e}")
+    lab = f"{meth}({kw})"
+    check_value(mk, lab, t2, out, want, sizes)
+    check_flags(mk, lab, t2)
+    # bonds between every pair of tensors: product of shared sizes never grows
+    for a, b in itertools.combinations([tag_of(t) for t in tn], 2):
+        s0 = int(np.prod([sizes[ix] for ix in tn[a].inds if ix in tn[b].inds]))
+        s1 = int(np.prod([t2[a].ind_size(ix) for ix in t2[a].inds if ix in t2[b].inds]))
+        mk.same(f"{lab}: total bond size between {a} and {b} not larger", s1 <= s0, True)
+
+
+# ====================================================================== J. decomposition based simplifications (S, P, L)
+
+SPL_GEOMS = {
+    "pairwide": ("P", True),     # bond 3 between two 2x3 matrices: the pair compresses to bond 2
+    "multi": ("P", True),        # a (2,2) multibond compresses to bond 2
+    "chain3": ("P", False),
+    "tri2": ("L", True),         # triangle: the loop is replaced by two tensors
+    "tri": ("L", False),
+    "ring4": ("L", None),
+    "chain3d3": ("P", True),
+}
+
+
+def _spl_params():
+    out = []
+    for g, (p, fires) in SPL_GEOMS.items():
+        for inplace in (True, False):
+            for eqn in (False, 1.0):
+                quick = (g, inplace, eqn) in {("pairwide", True, False), ("pairwide", False, False), ("tri2", True, False), ("tri2", False, False), ("multi", True, 1.0)}
+                out.append({"geom": g, "p": p, "inplace": inplace, "eqn": eqn, "_tiers": _Q if quick else _T,
+                            "_mandatory": g in ("pairwide", "tri2", "chain3")})
+    for g in ("chain3", "tri", "pair"):
+        out.append({"geom": g, "p": "S", "inplace": False, "eqn": False, "_tiers": _Q if g == "chain3" else _T})
+    return out
+
+
+@obligation(PROP, params=_spl_params(), rounds=2, rounds2=3, wall_s=280, timeout_s=360, max_rows=60000, exc_is_violation=True,
+            allow_exc=(P.Unsupported,))
+def decomposition_simplify(mk, geom, p, inplace, eqn):
+    """split_simplify / pair_simplify / loop_simplify with no truncation (cutoff 0): value, labels,
+    flags; plain and in-place spellings (an exception of the real code is a violation)"""
+    mk.encodes(tc.TensorNetwork.split_simplify, tc.TensorNetwork.pair_simplify, tc.TensorNetwork.loop_simplify,
+               tc.tensor_fuse_squeeze, tc.TensorNetwork.compute_contracted_inds, tnw.gen_loops, tc.tensor_split)
+    tn, sizes, out = build(mk, geom, kind="real")
+    want = dense(tn, out)
+    name = {"S": "split_simplify", "P": "pair_simplify", "L": "loop_simplify"}[p]
+    kw = dict(atol=0.0) if p == "S" else dict(cutoff=0.0, output_inds=out)
+    if eqn is not False:
+        kw["equalize_norms"] = eqn
+    before = shape_summary(tn)
+    if inplace:
+        t2 = tn.copy()
+        r = getattr(t2, name + "_")(**kw)
+        mk.same(f"{name}_ returns the network itself", r is t2, True)
+    else:
+        t2 = getattr(tn, name)(**kw)
+    lab = f"{name}{'_' if inplace else ''}({kw})"
+    mk.note(f"{geom}: {lab} {before} -> {shape_summary(t2)}")
+    check_value(mk, lab, t2, out, want, sizes)
+    check_flags(mk, lab, t2)
+    mk.same(f"{lab}: never more entries than before", shape_summary(t2)[2] <= before[2], True)
+
+
+@obligation(PROP, params=[{"shape": s} for s in ("outer", "outer3")], numeric_required=True)
+def split_simplify_lowrank_numeric(mk, shape):
+    """numeric-only supplement: split_simplify on rank-deficient tensors (an exact outer product):
+    the decomposition fires (rank detection by the real SVD, which the contract stub does not model)"""
+    mk.encodes(tc.TensorNetwork.split_simplify)
+    if mk.sym:
+        mk.note("numeric-only: the SVD stub returns full-rank factors; rank-deficient inputs run in the numeric cross-run")
+        mk.same("numeric-only obligation", True, True)
+        return
+    u = mk.array("u", (2, 2), "real")
+    v = mk.array("v", (2, 2), "real")
+    w = mk.array("w", (2, 2), "real")
+    T = np.einsum("ax,by->abxy", u, v)
+    ts = [qtn.Tensor(T, "abxy", tags="T"), qtn.Tensor(w, "xc", tags="W")]
+    if shape == "outer3":
+        ts.append(qtn.Tensor(mk.array("z", (2, 2), "real"), "yd", tags="Z"))
+    tn = qtn.TensorNetwork(ts)
+    tn.exponent = float(mk.scalar("e", "real"))
+    out = tuple(tn.outer_inds())
+    sizes = {o: tn.ind_size(o) for o in out}
+    want = dense(tn, out)
+    for kw in (dict(), dict(equalize_norms=1.0), dict(atol=1e-10)):
+        t2 = tn.split_simplify(**kw)
+        check_value(mk, f"split_simplify({kw}) on an outer product", t2, out, want, sizes)
+        mk.same(f"split_simplify({kw}): the outer product was split", t2.num_tensors > tn.num_tensors, True)
+    t3 = tn.full_simplify("ADCRS", output_inds=out)
+    check_value(mk, "full_simplify('ADCRS') on an outer product", t3, out, want, sizes)
+    t3 = tn.compress_simplify(output_inds=out)
+    check_value(mk, "compress_simplify() on an outer product", t3, out, want, sizes)
+
+
+_FSL = [("pairwide", "RPL"), ("tri2", "L"), ("tri2", "RPL"), ("multi", "P"), ("chain3", "ADCRS"), ("chain3", "SR"), ("pairwide", "PR")]
+
+
+@obligation(PROP, params=[{"geom": g, "seq": s, "_tiers": _Q if (g, s) in {("pairwide", "RPL"), ("tri2", "L")} else _T,
+                           "_mandatory": (g, s) in {("pairwide", "RPL"), ("tri2", "L"), ("chain3", "SR")}} for g, s in _FSL],
+            rounds=2, rounds2=3, wall_s=280, timeout_s=360, max_rows=60000, exc_is_violation=True, allow_exc=(P.Unsupported,))
+def full_simplify_lapack(mk, geom, seq):
+    """full_simplify with sequences containing S / P / L (atol=0.0: no truncation)"""
+    mk.encodes(tc.TensorNetwork.full_simplify, tc.TensorNetwork.split_simplify, tc.TensorNetwork.pair_simplify, tc.TensorNetwork.loop_simplify)
+    tn, sizes, out = build(mk, geom, kind="pos" if mk.sym else "real")
+    want = dense(tn, out)
+    t2 = tn.full_simplify(seq, output_inds=out, atol=0.0)
+    lab = f"full_simplify('{seq}', atol=0.0)"
+    mk.note(f"{geom}: {lab} {shape_summary(tn)} -> {shape_summary(t2)}")
+    check_value(mk, lab, t2, out, want, sizes)
+    check_flags(mk, lab, t2)
+
+
+# ====================================================================== K. balance_bonds
+
+@obligation(PROP, params=[{"shape": s} for s in ("vec-vec", "vec-mat1", "mat1-mat1")])
+def balance_bond_symbolic(mk, shape):
+    """tensor_balance_bond(t1, t2, smudge=0.0) where the squared column norms are monomials (every
+    other dimension has size 1): value kept, column norms on both sides of the bond equal"""
+    mk.encodes(tc.tensor_balance_bond, tc.Tensor.multiply_index_diagonal)
+    D = 3
+    s1, i1 = {"vec-vec": ((D,), "x"), "vec-mat1": ((D,), "x"), "mat1-mat1": ((1, D), "ax")}[shape]
+    s2, i2 = {"vec-vec": ((D,), "x"), "vec-mat1": ((D, 1), "xb"), "mat1-mat1": ((D, 1, 1), "xbc")}[shape]
+    t1 = qtn.Tensor(mk.array("A", s1, "pos"), i1, tags="A")
+    t2 = qtn.Tensor(mk.array("B", s2, "pos"), i2, tags="B")
+    tn = qtn.TensorNetwork([t1, t2])
+    out = tuple(tn.outer_inds())
+    sizes = {o: tn.ind_size(o) for o in out}
+    want = dense(tn, out)
+    t3 = tn.copy()
+    tc.tensor_balance_bond(t3["A"], t3["B"], smudge=0.0)
+    check_value(mk, "tensor_balance_bond(A, B, smudge=0.0)", t3, out, want, sizes)
+    for k in range(D):
+        na = norm2(t3["A"].isel({"x": k}))
+        nb = norm2(t3["B"].isel({"x": k}))
+        mk.eq(f"tensor_balance_bond: column {k} of the bond has the same squared norm on both sides", na, nb)
+
+
+@obligation(PROP, params=[{"geom": g} for g in ("chain3", "tri", "ring4", "chain3d3", "hyper3")], numeric_required=True)
+def balance_bonds_numeric(mk, geom):
+    """numeric-only supplement: balance_bonds / tensor_balance_bond on generic tensors take the
+    power 1/4 of a ratio of sums of squares (not a rational function): checked on random complex data"""
+    mk.encodes(tc.TensorNetwork.balance_bonds, tc.tensor_balance_bond)
+    if mk.sym:
+        mk.note("numeric-only: (x / y)**0.25 of non-monomial quantities is outside the symbolic engine")
+        mk.same("numeric-only obligation", True, True)
+        return
+    tn, sizes, out = build(mk, geom, kind="cplx")
+    want = dense(tn, out)
+    t2 = tn.balance_bonds()
+    check_value(mk, "balance_bonds()", t2, out, want, sizes)
+    t3 = tn.copy()
+    r = t3.balance_bonds_()
+    mk.same("balance_bonds_ returns the network itself", r is t3, True)
+    check_value(mk, "balance_bonds_()", t3, out, want, sizes)
+    t4 = tn.copy()
+    tc.tensor_balance_bond(t4["C"], t4["D"] if geom in ("ring4", "hyper3") else t4["B"], smudge=0.0)
+    check_value(mk, "tensor_balance_bond(smudge=0.0)", t4, out, want, sizes)
+    ta, tb = t4["C"], (t4["D"] if geom in ("ring4", "hyper3") else t4["B"])
+    (ix,) = ta.bonds(tb)
+    for k in range(ta.ind_size(ix)):
+        mk.eq(f"tensor_balance_bond(smudge=0.0): column {k} balanced", norm2(ta.isel({ix: k})), norm2(tb.isel({ix: k})), tol=1e-9)
+
+
+@obligation(PROP, params=[{"geom": g, "unitary": u} for g in ("chain3", "tri", "multi") for u in (True, False)], numeric_required=True)
+def gauge_all_random_numeric(mk, geom, unitary):
+    """numeric-only supplement: gauge_all_random draws its gauges from quimb's RNG"""
+    mk.encodes(tc.TensorNetwork.gauge_all_random)
+    if mk.sym:
+        mk.note("numeric-only: random gauges come from the library's RNG")
+        mk.same("numeric-only obligation", True, True)
+        return
+    tn, sizes, out = build(mk, geom, kind="cplx")
+    want = dense(tn, out)
+    for it in (1, 2):
+        t2 = tn.gauge_all_random(max_iterations=it, unitary=unitary, seed=7)
+        check_value(mk, f"gauge_all_random(max_iterations={it}, unitary={unitary})", t2, out, want, sizes)
+    t2 = tn.gauge_all(method="random", seed=3)
+    check_value(mk, "gauge_all(method='random')", t2, out, want, sizes)
+
+
+# ====================================================================== L. compositions with LAPACK based rewrites
+
+def _step(mk, tn, op, out):
+    """one rewrite (in place on a copy) by name"""
+    t = tn.copy()
+    if op == "canonAB":
+        t.canonize_between("A", "B")
+    elif op == "canonBA":
+        t.canonize_between("B", "A")
+    elif op == "canonCB":
+        t.canonize_between("C", "B")
+    elif op == "compressAB":
+        t.compress_between("A", "B", cutoff=0.0)
+    elif op == "compressAB_left":
+        t.compress_between("A", "B", cutoff=0.0, absorb="left")
+    elif op == "aroundA":
+        t.canonize_around_("A")
+    elif op == "aroundC":
+        t.canonize_around_("C")
+    elif op == "fuse":
+        t.fuse_multibonds_()
+    elif op == "squeeze":
+        t.squeeze_(exclude=out)
+    elif op == "eqn":
+        t.equalize_norms_(1.0)
+    elif op == "eqnNone":
+        t.equalize_norms_()
+    elif op == "rank":
+        t.rank_simplify_(output_inds=out)
+    elif op == "gaugeU":
+        (bond,) = t["A"].bonds(t["B"])
+        U = mk.array("U", (2, 2), "real")
+        t.insert_gauge(U, "A", "B", Uinv=_inv2(U))
+    elif op == "strip":
+        t.strip_exponent(t["A"], 2.0)
+    elif op == "flipx":
+        (bond,) = t["A"].bonds(t["B"])
+        t.flip_([bond])
+    elif op == "conj":
+        t = t.conj()
+    else:
+        raise ValueError(op)
+    return t
+
+
+_COMPOSE = [
+    ("chain3", ("canonAB", "canonCB")), ("chain3", ("canonAB", "canonBA")), ("chain3", ("canonAB", "compressAB")),
+    ("chain3", ("compressAB_left", "canonAB")), ("chain3", ("canonAB", "eqn")), ("chain3", ("eqn", "canonAB")),
+    ("chain3", ("canonAB", "strip")), ("chain3", ("canonAB", "gaugeU")), ("chain3", ("aroundA", "aroundC")),
+    ("chain3", ("aroundC", "rank")), ("chain3", ("canonAB", "squeeze")), ("chain3", ("canonAB", "flipx")), ("chain3", ("canonAB", "conj")),
+    ("multi", ("fuse", "canonAB")), ("multi", ("canonAB", "fuse")), ("multi", ("canonCB", "fuse")),
+    ("dim1", ("canonAB", "squeeze")), ("dim1", ("squeeze", "canonAB")), ("dim1", ("aroundC", "squeeze")),
+    ("tri", ("canonAB", "canonCB")), ("tri", ("canonAB", "eqnNone")),
+    ("chain3", ("canonAB", "canonCB", "compressAB")), ("chain3", ("aroundA", "eqn", "aroundC")),
+]
+_COMPOSE_QUICK = {("chain3", ("canonAB", "canonCB")), ("chain3", ("canonAB", "eqn")), ("multi", ("canonAB", "fuse")), ("dim1", ("canonAB", "squeeze")),
+                  ("chain3", ("canonAB", "gaugeU")), ("chain3", ("canonAB", "flipx")), ("chain3", ("canonAB", "conj"))}
+
+
+@obligation(PROP, params=[{"geom": g, "ops": ops, "_tiers": _Q if (g, ops) in _COMPOSE_QUICK else _T,
+                           "_mandatory": len(ops) == 2 and "compressAB" not in ops} for g, ops in _COMPOSE],
+            rounds=2, rounds2=3, wall_s=280, timeout_s=360, max_rows=60000)
+def compose_lapack(mk, geom, ops):
+    """sequences of two or three rewrites where at least one is QR / SVD based: after every step the
+    value and the outer labels are the original ones and every tensor still flagged through
+    left_inds is an isometry (a flag set by a previous step must be dropped or stay true)"""
+    mk.encodes(tc.TensorNetwork.canonize_between, tc.TensorNetwork.compress_between, tc.TensorNetwork.canonize_around,
+               tc.TensorNetwork.fuse_multibonds, tc.TensorNetwork.squeeze, tc.TensorNetwork.equalize_norms, tc.TensorNetwork.rank_simplify,
+               tc.TensorNetwork.insert_gauge, tc.TensorNetwork.strip_exponent, tc.TensorNetwork.flip, tc.TensorNetwork.conj,
+               tc.Tensor.modify, tc.Tensor.fuse, tc.Tensor.squeeze)
+    tn, sizes, out = build(mk, geom, kind="real")
+    want = dense(tn, out)
+    t = tn
+    done = []
+    for op in ops:
+        t = _step(mk, t, op, out)
+        done.append(op)
+        lab = " ; ".join(done)
+        check_value(mk, lab, t, out, want if "conj" not in done else conj(want), sizes)
+        check_flags(mk, lab, t)
+
+
+@obligation(PROP, params=[{"absorb": None, "then": th, "_tiers": _Q if th in ("rank", "resolve") else _T} for th in ("rank", "canonize", "resolve", "fullR", "eqn")],
+            rounds=2, rounds2=3, wall_s=280, timeout_s=360, max_rows=60000)
+def split_then_pass(mk, absorb, then):
+    """a diagonal (singular value) tensor produced by a previous decomposition: Tensor.split(absorb=None)
+    gives a network whose bond carries the values as a vector on a hyper index; that network is fed
+    to a second rewrite"""
+    mk.encodes(tc.tensor_split, tc.TensorNetwork.rank_simplify, tc.TensorNetwork.diagonal_reduce, tc.TensorNetwork.hyperinds_resolve,
+               tc.TensorNetwork.full_simplify, tc.TensorNetwork.equalize_norms)
+    T = qtn.Tensor(mk.array("T", (2, 2, 2), "real"), "abc", tags="T")
+    W = qtn.Tensor(mk.array("W", (2, 2), "real"), "cd", tags="W")
+    sub = T.split(("a",), absorb=None, cutoff=0.0, bond_ind="k")
+    tn = qtn.TensorNetwork([sub, W])
+    e = mk.scalar("e", "real")
+    tn.exponent = e if mk.sym else float(e)
+    out = ("a", "b", "d")
+    sizes = dict(a=2, b=2, d=2)
+    want = ref.sum_of_products([(T.data, T.inds), (W.data, W.inds)], out) * (10 ** tn.exponent)
+    check_value(mk, "Tensor.split(absorb=None) inside a network", tn, out, want, sizes)
+    if then == "rank":
+        t2 = tn.rank_simplify(output_inds=out)
+    elif then == "canonize":
+        t2 = tn.gauge_all_canonize(max_iterations=1)
+    elif then == "resolve":
+        t2 = tn.hyperinds_resolve(output_inds=out)
+    elif then == "fullR":
+        t2 = tn.full_simplify("R", output_inds=out)
+    else:
+        t2 = tn.equalize_norms(1.0)
+    check_value(mk, f"split(absorb=None) ; {then}", t2, out, want, sizes)
+    check_flags(mk, f"split(absorb=None) ; {then}", t2)
+
+
+@obligation(PROP, params=[{"geom": g, "op": o} for g in ("pair", "chain3") for o in ("canonize_right", "canonize_left", "compress_right", "around")],
+            tiers=_T, rounds=2, rounds2=3, wall_s=280, timeout_s=360, max_rows=60000)
+def complex_entries(mk, geom, op):
+    """QR / SVD based rewrites on COMPLEX symbolic entries (conj-pair symbols, complex stub factors)"""
+    mk.encodes(tc.tensor_canonize_bond, tc.tensor_compress_bond, tc.TensorNetwork.canonize_around)
+    tn, sizes, out = build(mk, geom, kind="cplx")
+    want = dense(tn, out)
+    t2 = tn.copy()
+    if op == "canonize_right":
+        t2.canonize_between("A", "B")
+    elif op == "canonize_left":
+        t2.canonize_between("A", "B", absorb="left")
+    elif op == "compress_right":
+        t2.compress_between("A", "B", cutoff=0.0, absorb="right", reduced=False)
+    else:
+        t2.canonize_around_("A")
+    check_value(mk, f"{op} (complex)", t2, out, want, sizes)
+    check_flags(mk, f"{op} (complex)", t2)
+
+
+@obligation(PROP, params=[{"geom": "pair", "opt": o, "_tiers": _Q if o == "canonize_eqn1" else _T}
+                          for o in ("canonize_eqn1", "canonize_eqnTrue", "simple_eqnTrue")],
+            rounds=2, wall_s=280, timeout_s=360, max_rows=20000)
+def gauge_local_equalize(mk, geom, opt):
+    """gauge_local(tags, method=..., equalize_norms=...): the option is forwarded to gauge_all_canonize /
+    gauge_all_simple running on a *virtual* sub-network; the factors they strip must end up in the
+    network the user holds (value over the same labels, including its exponent)"""
+    mk.encodes(tc.TensorNetwork.gauge_local, tc.TensorNetwork._gauge_local_tids, tc.TensorNetwork._select_local_tids,
+               tc.TensorNetwork.gauge_all_canonize, tc.TensorNetwork.gauge_all_simple, tc.TensorNetwork.strip_exponent)
+    tn, sizes, out = build(mk, geom, kind="real")
+    want = dense(tn, out)
+    kw = {"canonize_eqn1": dict(method="canonize", max_distance=1, equalize_norms=1.0),
+          "canonize_eqnTrue": dict(method="canonize", max_distance=1, equalize_norms=True),
+          "simple_eqnTrue": dict(method="simple", max_distance=1, smudge=0.0, equalize_norms=True)}[opt]
+    t2 = tn.gauge_local("A", **kw)
+    lab = f"gauge_local('A', {kw})"
+    check_value(mk, lab, t2, out, want, sizes)
+    check_flags(mk, lab, t2)
+
+
+GEOMS["hyperbond"] = ([("A", "axh"), ("B", "xhb"), ("C", "hc")], dict(a=2, b=2, c=2, x=2, h=2), "abc")
+
+
+@obligation(PROP, params=[{"op": o, "_tiers": _Q if o in ("gauge_all_canonize", "fuse_multibonds") else _T}
+                          for o in ("gauge_all_canonize", "gauge_all_simple", "compress_all", "fuse_multibonds", "rank_simplify", "pair_simplify_")],
+            rounds=2, wall_s=280, timeout_s=360, max_rows=20000)
+def hyper_shared_pair(mk, op):
+    """two tensors that share an ordinary bond x AND a hyper index h (h also sits on a third tensor):
+    the sweeps that document skipping labels 'not on exactly two tensors' must keep the value (the
+    pairwise fusing of *all* shared labels must not swallow h)"""
+    mk.encodes(tc.TensorNetwork.gauge_all_canonize, tc.TensorNetwork.gauge_all_simple, tc.TensorNetwork.compress_all,
+               tc.tensor_make_single_bond, tc.tensor_multifuse, tc.group_inds, tc.TensorNetwork.fuse_multibonds)
+    tn, sizes, out = build(mk, "hyperbond", kind="real")
+    want = dense(tn, out)
+    if op == "gauge_all_canonize":
+        t2 = tn.gauge_all_canonize(max_iterations=1)
+    elif op == "gauge_all_simple":
+        t2 = tn.gauge_all_simple(max_iterations=1, smudge=0.0)
+    elif op == "compress_all":
+        t2 = tn.compress_all(cutoff=0.0, canonize=False)
+    elif op == "fuse_multibonds":
+        t2 = tn.fuse_multibonds()
+    elif op == "rank_simplify":
+        t2 = tn.rank_simplify(output_inds=out)
+    else:
+        t2 = tn.copy()
+        t2.pair_simplify_(cutoff=0.0, output_inds=out)
+    check_value(mk, f"{op} on a pair sharing a bond and a hyper index", t2, out, want, sizes)
+    check_flags(mk, f"{op} on a pair sharing a bond and a hyper index", t2)
